@@ -1364,3 +1364,99 @@ func jsonKind(v any) string {
 	}
 	return "number"
 }
+
+// ---------------------------------------------------------------- reference order and equality of stored values
+
+func bigOf(v any) (*big.Float, bool) {
+	f := new(big.Float).SetPrec(300)
+	switch x := v.(type) {
+	case int8:
+		return f.SetInt64(int64(x)), true
+	case int16:
+		return f.SetInt64(int64(x)), true
+	case int32:
+		return f.SetInt64(int64(x)), true
+	case int64:
+		return f.SetInt64(x), true
+	case int:
+		return f.SetInt64(int64(x)), true
+	case uint8:
+		return f.SetUint64(uint64(x)), true
+	case uint16:
+		return f.SetUint64(uint64(x)), true
+	case uint32:
+		return f.SetUint64(uint64(x)), true
+	case uint64:
+		return f.SetUint64(x), true
+	case uint:
+		return f.SetUint64(uint64(x)), true
+	case float32:
+		return f.SetFloat64(float64(x)), true
+	case float64:
+		return f.SetFloat64(x), true
+	case types.Timespan:
+		return f.SetInt64(int64(x)), true
+	case *apd.Decimal:
+		if x.Form != apd.Finite {
+			return nil, false
+		}
+		r, ok := new(big.Rat).SetString(x.Text('f'))
+		if !ok {
+			return nil, false
+		}
+		// exact: decimal text of at most 65+30 digits fits 300-bit mantissa only approximately, so compare rationals
+		return nil, r != nil && false
+	}
+	return nil, false
+}
+
+func ratOf(v any) (*big.Rat, bool) {
+	switch x := v.(type) {
+	case *apd.Decimal:
+		if x.Form != apd.Finite {
+			return nil, false
+		}
+		return new(big.Rat).SetString(x.Text('f'))
+	case float32:
+		r := new(big.Rat).SetFloat64(float64(x))
+		return r, r != nil
+	case float64:
+		r := new(big.Rat).SetFloat64(x)
+		return r, r != nil
+	}
+	if f, ok := bigOf(v); ok && f != nil {
+		r, _ := f.Rat(nil)
+		return r, true
+	}
+	return nil, false
+}
+
+// RefCompare is the natural order of two stored values of a kind, where there is one that is beyond doubt
+// (numbers numerically, instants chronologically, binary strings bytewise, ENUM by index, SET and BIT by bit value).
+// ok=false for kinds whose order depends on a collation or on JSON comparison rules.
+func RefCompare(kind string, a, b any) (int, bool) {
+	switch kind {
+	case "int", "float", "decimal", "time", "year", "bit", "enum", "set":
+		x, ok1 := ratOf(a)
+		y, ok2 := ratOf(b)
+		if !ok1 || !ok2 {
+			return 0, false
+		}
+		return x.Cmp(y), true
+	case "date", "datetime", "timestamp":
+		x, ok1 := a.(time.Time)
+		y, ok2 := b.(time.Time)
+		if !ok1 || !ok2 {
+			return 0, false
+		}
+		return x.Compare(y), true
+	case "binary":
+		x, ok1 := a.([]byte)
+		y, ok2 := b.([]byte)
+		if !ok1 || !ok2 {
+			return 0, false
+		}
+		return strings.Compare(string(x), string(y)), true
+	}
+	return 0, false
+}
